@@ -118,9 +118,60 @@ Proof. vm_compute. reflexivity. Qed.
 
 (* ---- BufferedSocket write side -------------------------------------------------------------- *)
 
-(* any disciplined mixture of buffered sends, direct sends and flushes over any partial-accept
-   schedule: wire ++ queue is always exactly the data sent so far, in order *)
-Theorem buffered_flush_order_partial :
+(* The generator API flushes with BufferedSocket.flush_async (since /repo 8168763).
+   FULL statement, for EVERY schedule (would-blocks, partial accepts, failures, exhaustion) and
+   any disciplined mixture of buffered sends, direct sends and flush_async:
+   completes => wire ++ queue is exactly the data sent so far, in order;
+   raises    => only a real socket error present in the schedule, never a would-block;
+   suspended => only because the schedule is exhausted. *)
+Theorem buffered_flush_order :
+  forall ops y bsk wire (s : list sev),
+  no_sync_flush ops = true ->
+  disciplined ops (bw bsk) (q_empty bsk) = true ->
+  let r := bs_run ops y bsk wire s in
+  (o_of r = Done tt ->
+     w_of r ++ concat (queue (b_of r)) = wire ++ concat (queue bsk) ++ sent_data ops) /\
+  (forall e, o_of r = Raised e -> real_error e) /\
+  (o_of r = Pending -> s_of r = []).
+Proof. exact bs_run_order_full. Qed.
+
+(* the pattern tlslite's generators use for a flight, over EVERY schedule: a prefix of the
+   flight is on the wire in order; all of it, queue empty and buffering off, when it completes *)
+Theorem buffered_flight_order :
+  forall msgs wire (s : list sev),
+  let r := bs_run (flight_a msgs) 0 bs_init wire s in
+  exists sent rest, concat msgs = sent ++ rest /\ w_of r = wire ++ sent /\
+    (o_of r = Done tt -> rest = [] /\ b_of r = bs_init) /\
+    (forall e, o_of r = Raised e -> real_error e) /\
+    (o_of r = Pending -> s_of r = []).
+Proof. exact flight_a_order. Qed.
+
+(* buffering is transparent: a non-empty buffered flight IS one _sockSendAll of the concatenated
+   messages -- same yields, outcome, wire and remaining schedule, for every schedule *)
+Theorem buffered_flight_is_direct_send :
+  forall msgs wire (s : list sev), zlen (concat msgs) <> 0 ->
+  let '(y, o, w, s') := send_all (concat msgs) 0 wire s in
+  bs_run (flight_a msgs) 0 bs_init wire s =
+  (y, o, match o with Done _ => bs_init | _ => {| bw := true; queue := [] |} end, w, s').
+Proof. exact flight_a_is_send_all. Qed.
+
+(* and it completes on every schedule without hard failures that keeps accepting *)
+Theorem buffered_flight_completes_on_live_schedules :
+  forall msgs wire (s : list sev),
+  forallb pos_accept_or_wb s = true -> Z.max 1 (zlen (concat msgs)) <= n_accepts s ->
+  o_of (bs_run (flight_a msgs) 0 bs_init wire s) = Done tt /\
+  w_of (bs_run (flight_a msgs) 0 bs_init wire s) = wire ++ concat msgs.
+Proof. exact flight_a_completes. Qed.
+
+Example buffered_flight_example :
+  bs_run (flight_a [[1; 2; 3]]) 0 bs_init [] [Accept 1; SBlock; Accept 5] = (2, Done tt, bs_init, [1; 2; 3], []).
+Proof. exact flight_a_on_witness. Qed.
+
+(* BufferedSocket.flush() (socket.sendall) remains in the class as a blocking-socket API; it is
+   called only by BufferedSocket.close()/shutdown(), never by a generator with a non-empty queue
+   (checked on every live run: sendall is never reached).  On accept-only schedules -- what a
+   blocking socket presents -- it keeps order ... *)
+Theorem sync_flush_order_on_blocking_sockets :
   forall ops y bsk wire (s : list sev),
   forallb sev_accept_only s = true ->
   disciplined ops (bw bsk) (q_empty bsk) = true ->
@@ -130,26 +181,17 @@ Theorem buffered_flush_order_partial :
      w_of r ++ concat (queue (b_of r)) = wire ++ concat (queue bsk) ++ sent_data ops).
 Proof. exact bs_run_order. Qed.
 
-(* the pattern tlslite uses for a flight *)
-Theorem buffered_flight_order_partial :
-  forall msgs wire (s : list sev),
-  forallb sev_accept_only s = true ->
-  let r := bs_run (flight msgs) 0 bs_init wire s in
-  (forall e, o_of r <> Raised e) /\
-  (o_of r = Done tt -> w_of r = wire ++ concat msgs /\ b_of r = bs_init).
-Proof. exact flight_order. Qed.
-
-(* The full statement -- the same for every schedule that has would-blocks but no hard
-   failure -- is FALSE: flush() uses socket.sendall, a would-block there is an exception,
-   the queue has already been cleared.  Witness (replayed on the code by the harness): *)
-Theorem buffered_flush_order_refuted :
+(* ... and it must not be used on a non-blocking socket: a would-block inside sendall is an
+   exception after the queue was cleared (this was finding C14-1 while the generators used it) *)
+Theorem sync_flush_is_blocking_socket_api_only :
   exists msgs (s : list sev),
   forallb sev_ok s = true /\
   snd (fst (fst (send_all (concat msgs) 0 [] s))) = Done tt /\
+  o_of (bs_run (flight_a msgs) 0 bs_init [] s) = Done tt /\
   o_of (bs_run (flight msgs) 0 bs_init [] s) = Raised (SockError EWOULDBLOCK) /\
   w_of (bs_run (flight msgs) 0 bs_init [] s) <> concat msgs /\
   queue (b_of (bs_run (flight msgs) 0 bs_init [] s)) = [].
-Proof. exact flush_would_block_refutes. Qed.
+Proof. exact sync_flush_wouldblock_witness. Qed.
 
 (* ---- Defragmenter ------------------------------------------------------------------------------ *)
 
